@@ -37,7 +37,7 @@ def build(ctx):
     G, D, E = 2, 1, ctx.q(1, 2)
     ctx.assumptions = ["recording visitor returning true at the k-th callback, k symbolic (k=0: never); geometry: numInGroup <= %d, data length <= %d, wire blockLength in [compiled, compiled+%d]; all bytes symbolic" % (G, D, E)]
     plan = [("vs_msg_le.xml", "17", "checked"), ("vs_msg2_le.xml", "17", "checked")] if ctx.quick else [(x, s, "checked") for s in ("11", "14", "17", "20") for x in ("vs_msg_le.xml", "vs_msg_be.xml")] + \
-        [("vs_msg2_le.xml", "17", "checked"), ("vs_msg2_be.xml", "20", "checked"), ("vs_exotic.xml", "17", "checked")]
+        [("vs_msg2_le.xml", "17", "checked"), ("vs_msg2_be.xml", "20", "checked"), ("vs_exotic.xml", "17", "checked"), ("vs_hdr_j.xml", "17", "checked")]
     plan = hgen.plan_env(plan)
     for (xml, std, mode) in plan:
         sch, inc = hgen.gen_headers(ctx, xml)
